@@ -52,16 +52,33 @@ Definition strlist_cell (count i : N) (st : list bytes * N) : prog (list bytes *
 (* NewStrListDecoder: buf = make([]byte, 4) *)
 Definition strlist_cap0 : N := 4.
 
-Definition strlist_read (pc : precap) (F : nat) (cap : N) : prog (list bytes * N) :=
+(** The two modes of the list decoders.  New...Decoder(true) ("reuseRecords") keeps a result
+    slice of capacity 256 in the decoder; strSlice / makeUintSlice / makeFloatSlice then
+    allocate only when the (capped) count n exceeds that capacity, and allocate n elements.
+    New...Decoder(false) allocates n elements at every call.  [ru] = the reuse flag;
+    [n] is the count AFTER the maxPrealloc clamp ([prealloc pc count]): a clamp that covers
+    only one of the two branches is the [Uncapped] discipline on the other. *)
+Definition reuse_cap0 : N := 256.
+Definition prealloc_cost (ru : bool) (esz n : N) : N :=
+  if ru then (if reuse_cap0 <? n then esz * n else 0) else esz * n.
+(* what the constructor allocates besides the scratch buffer *)
+Definition ctor_cost (ru : bool) (esz : N) : N := if ru then esz * reuse_cap0 else 0.
+
+Definition strlist_read_g (ru : bool) (pc : precap) (F : nat) (cap : N) : prog (list bytes * N) :=
   cb <- rd_exact S_slist_u32 4 ;;                        (* readUint32 *)
   count <- lift (be_u32 cb) ;;
-  _ <- alloc (sz_string * prealloc pc count) ;;          (* strSlice *)
+  _ <- alloc (prealloc_cost ru sz_string (prealloc pc count)) ;;   (* strSlice *)
   for_n F (strlist_cell count) count 0 ([], cap).
+Definition strlist_read := strlist_read_g false.
 
 (* a fresh decoder reading one record *)
 Definition strlist_read1 (pc : precap) (F : nat) : prog (list bytes) :=
   _ <- alloc 4 ;;
   '(sl, _) <- strlist_read pc F strlist_cap0 ;;
+  Ret sl.
+Definition strlist_read1_reuse (pc : precap) (F : nat) : prog (list bytes) :=
+  _ <- alloc (4 + ctor_cost true sz_string) ;;           (* NewStrListDecoder(true) *)
+  '(sl, _) <- strlist_read_g true pc F strlist_cap0 ;;
   Ret sl.
 
 (** StrListDecoder.ReadBytes (reuseRecords = false): the raw bytes of one record, which is
@@ -89,16 +106,19 @@ Definition strlist_rb_cell (count i : N) (st : bytes * N) : prog (bytes * N) :=
     end
   else Crash.
 
-Definition strlist_read_bytes (F : nat) : prog bytes :=
+Definition strlist_read_bytes_g (ru : bool) (F : nat) : prog bytes :=
   '(hb, e) <- rdf S_slist_rb0 4 ;;
   match e with
   | Some c => Fail c
   | None =>
       count <- lift (be_u32 (pad 4 hb)) ;;
       '(acc, _) <- for_n F (strlist_rb_cell count) count 0 (hb, 4) ;;
-      _ <- alloc (N.of_nat (length acc)) ;;               (* b = make([]byte, n); copy *)
+      (* !reuseRecords: b = make([]byte, n); copy.  reuseRecords: d.buf[:n] itself *)
+      _ <- alloc (if ru then 0 else N.of_nat (length acc)) ;;
       Ret acc
   end.
+
+Definition strlist_read_bytes := strlist_read_bytes_g false.
 
 (** StrListDecoder.Decode(b) on a byte slice, new decoder: (outcome, bytes allocated) *)
 Fixpoint strlist_decode_loop (fuel : nat) (b : bytes) (count i : N) (off : nat)
@@ -128,14 +148,16 @@ Fixpoint strlist_decode_loop (fuel : nat) (b : bytes) (count i : N) (off : nat)
     end
   else (Ok sl, m).
 
-Definition strlist_decode (pc : precap) (b : bytes) : res (list bytes) * N :=
+Definition strlist_decode_g (ru : bool) (pc : precap) (b : bytes) : res (list bytes) * N :=
+  let m0 := 4 + ctor_cost ru sz_string in
   match be_u32 b with
   | Ok count =>
       strlist_decode_loop (S (length b)) b count 0 4 [] strlist_cap0
-                          (4 + sz_string * prealloc pc count)
-  | Err e => (Err e, 4)
-  | Panic => (Panic, 4)
+                          (m0 + prealloc_cost ru sz_string (prealloc pc count))
+  | Err e => (Err e, m0)
+  | Panic => (Panic, m0)
   end.
+Definition strlist_decode := strlist_decode_g false.
 
 (** ValidateStrListBytes(b): number of bytes of the record *)
 Fixpoint validate_strlist_loop (checked : bool) (fuel : nat) (b : bytes) (count i : N)
@@ -196,24 +218,33 @@ Definition validate_block_gen (checked : bool) (b : bytes) : res unit :=
 Definition validate_block := validate_block_gen true.
 Definition validate_block_unchecked := validate_block_gen false.
 
-(** UintListDecoder.Read (reuseRecords = false) *)
-Definition uintlist_read (pc : precap) (F : nat) : prog (list N) :=
+(** UintListDecoder.Read *)
+Definition uintlist_read_g (ru : bool) (pc : precap) (F : nat) : prog (list N) :=
   nb <- rd_exact S_ulist_u32 4 ;;
   n <- lift (be_u32 nb) ;;
-  _ <- alloc (4 * prealloc pc n) ;;                       (* makeUintSlice *)
+  _ <- alloc (prealloc_cost ru 4 (prealloc pc n)) ;;      (* makeUintSlice *)
   for_n F (fun _ sl =>
              ub <- rd_exact S_ulist_u32 4 ;;
              u <- lift (be_u32 ub) ;;
              _ <- alloc 4 ;;
              Ret (sl ++ [u])) n 0 [].
 
-(** FloatListDecoder.Read (reuseRecords = false); values as their 64 bits *)
-Definition floatlist_read (pc : precap) (F : nat) : prog (list N) :=
+Definition uintlist_read := uintlist_read_g false.
+(* NewUintListDecoder(ru) + Read *)
+Definition uintlist_entry (ru : bool) (pc : precap) (F : nat) : prog (list N) :=
+  _ <- alloc (4 + ctor_cost ru 4) ;; uintlist_read_g ru pc F.
+
+(** FloatListDecoder.Read; values as their 64 bits *)
+Definition floatlist_read_g (ru : bool) (pc : precap) (F : nat) : prog (list N) :=
   nb <- rd_exact S_flist_u32 4 ;;
   n <- lift (be_u32 nb) ;;
-  _ <- alloc (8 * prealloc pc n) ;;                       (* makeFloatSlice *)
+  _ <- alloc (prealloc_cost ru 8 (prealloc pc n)) ;;      (* makeFloatSlice *)
   for_n F (fun _ sl =>
              fb <- rd_exact S_flist_f64 8 ;;
              f <- lift (be_u64 fb) ;;
              _ <- alloc 8 ;;
              Ret (sl ++ [f])) n 0 [].
+Definition floatlist_read := floatlist_read_g false.
+(* NewFloatListDecoder(ru) + Read *)
+Definition floatlist_entry (ru : bool) (pc : precap) (F : nat) : prog (list N) :=
+  _ <- alloc (8 + ctor_cost ru 8) ;; floatlist_read_g ru pc F.
